@@ -4,8 +4,8 @@ CONSTANTS
   Kinds = {"package", "import", "vargroup", "func", "method", "stmt", "block", "flit", "flitres"}
   Variants = {"plain"}
   FuncExprIsDecl = FALSE
-  ParenIsNesting = FALSE
-  ImportIsDecl = FALSE
-  TrailingCommentStays = FALSE
+  ParenIsNesting = TRUE
+  ImportIsDecl = TRUE
+  TrailingCommentStays = TRUE
 INVARIANTS WantIsStatement CodeKeepsBytes SplitSane CodeMeetsStatement Export
 PROPERTY Terminates
